@@ -78,6 +78,10 @@ CLAIMED = {
             "Theorems C14_data_frame/C14_cmd_frame/C14_stream/C14_read_prefix/C14_read_all/C14_write/C14_retransmit/C14_retransmit_same/C14_ptt_order/C14_arq_order/C14_parse_total/C14_crc_16bit hold for every input of the model. PARTIAL: the goroutine structure (broadcaster, Flush lock, Close time-outs) is not modelled (C14_flush_statement is a Prop); it is exercised per run by 40 (300) open/dial-or-accept/read/write/flush/close scenarios in serial mode over a link delivering 1..64 bytes per read and in TCP mode on loopback, judged by oracles written from the property text with an independent CRC implementation.",
             "Four fix: commits (16-bit length wrap and short data frames, CRC read with one Read, parameterless control lines, Read with a small buffer) precede this check. Unicode case mapping of non-ASCII control lines is outside the parser model (correspondence on ASCII lines; arbitrary bytes are fed to the real code for crash-freedom only). Schedules are sampled.",
             "DESIGN.md section 6 C14"),
+    "C15": ("Coq proof of the telnet login as functions of the received byte streams (client against any server script, server for any callsign/password, hand-over of the remaining bytes, deadline decision logic) + correspondence and property oracles on loopback TCP against the library's own listener and scripted peers",
+            "Theorems C15_clean_streams/C15_client/C15_server/C15_trim_identity/C15_deadline/C15_ok_is_login hold for every callsign and password without CR, every payload, every banner/garbage script and every arrival schedule of the model. The tie: 60 (500) logins each of library client vs library server, library client vs scripted server (split prompts, coalesced payload, everything in one write) and library server vs scripted client compared with the model and judged by the property; 12 (60) dials against silent / half-prompt / garbage / closing servers timed against their limit.",
+            "PARTIAL for the deadline: that a blocked read ends at the connection's deadline is the Go net package's behaviour (observed, +400 ms tolerance), the theorem covers the decision logic only. Two fix: commits (buffered bytes lost after login; login ignored the context) precede this check; known finding: a callsign with outer white space is reported trimmed. Unicode lower-casing of prompt lines is modelled for ASCII only.",
+            "DESIGN.md section 6 C15"),
 }
 
 NOT_YET = {}
